@@ -170,6 +170,17 @@ Definition p_step (st : list url * pstate) (o : pop) : list url * pstate :=
 Definition p_run (st : list url * pstate) (ops : list pop) : list url * pstate :=
   fold_left p_step ops st.
 
+(* the two halves of newConnection as separate operations (the harness dials, the real
+   setIfAbsent stores): the interleavings of concurrent callers, replayed deterministically *)
+Inductive pop2 := P1 (o : pop) | PDial (u : url) | PSetIfAbsent (u : url) (c : N).
+Definition p_step2 (st : list url * pstate) (o : pop2) : list url * pstate :=
+  match o with
+  | P1 o => p_step st o
+  | PDial u => (fst st, fst (p_log_dial (snd st) u))
+  | PSetIfAbsent u c => (fst st, fst (p_set_if_absent (snd st) u c))
+  end.
+Definition p_run2 (st : list url * pstate) (ops : list pop2) : list url * pstate := fold_left p_step2 ops st.
+
 Definition count_dials (s : pstate) (u : url) : N :=
   N.of_nat (List.length (filter (fun d => beq (snd d) u) (p_dials s))).
 Definition count_closed (s : pstate) (u : url) : N :=
@@ -197,18 +208,49 @@ Fixpoint ev_hdr (l : list sev) : md :=
 Fixpoint ev_msgs (l : list sev) : list str :=
   match l with [] => [] | SendHeader _ :: r => ev_msgs r | SendMsg m :: r => m :: ev_msgs r end.
 
-(* forwardServerToClient: every message the caller sends, in order; what the backend has of
-   them is what it reads *)
-Definition backend_reads (mode : N) (msgs : list str) : list str := if mode =? 2 then [] else msgs.
+(* forwardServerToClient: RecvMsg from the caller, SendMsg to the backend, until the caller's
+   io.EOF, then CloseSend; what the backend has of the frames is what it reads *)
+Inductive bev := BSend (m : str) | BCloseSend.
+Fixpoint fwd_s2c (msgs : list str) : list bev :=
+  match msgs with [] => [BCloseSend] | m :: r => BSend m :: fwd_s2c r end.
+Fixpoint bev_msgs (l : list bev) : list str :=
+  match l with [] => [] | BSend m :: r => m :: bev_msgs r | BCloseSend :: r => bev_msgs r end.
+Definition backend_reads (mode : N) (frames : list bev) : list str :=
+  if mode =? 2 then [] else bev_msgs frames.
+
+(* metadata: the director copies the incoming MD into the outgoing context (md.Copy());
+   grpc-go's client transport then leaves out the names it reserves for itself
+   (internal/transport http_util.go isReservedHeader) *)
+Definition reserved_names : list str :=
+  map bs ["content-type"; "user-agent"; "grpc-message-type"; "grpc-encoding"; "grpc-message";
+          "grpc-status"; "grpc-timeout"; "grpc-status-details-bin"; "te"]%string.
+Definition reserved (k : str) : bool :=
+  match k with 58 :: _ => true | _ => mem k reserved_names end.      (* ':' pseudo headers *)
+Definition md_out (m : md) : md := filter (fun kv => negb (reserved (fst kv))) m.
+
+(* the end of the call: RecvMsg on the backend stream returns io.EOF (handler returns nil:
+   OK, no message) or the backend's status error, which is returned as it is *)
+Definition final_status (code : N) (msg : str) : N * str := if code =? 0 then (0, []) else (code, msg).
 
 Definition relay (ci : callin) : bview * cview :=
   let sc := ci_script ci in
   let evs := fwd_c2s 0 (sc_hdr sc) (sc_msgs sc) in
-  (mkbview (ci_method ci) (ci_md ci) (backend_reads (sc_mode sc) (ci_msgs ci)),
-   mkcview (ev_hdr evs) (ev_msgs evs) (sc_trl sc) (sc_code sc) (if sc_code sc =? 0 then [] else sc_msg sc)).
+  let st := final_status (sc_code sc) (sc_msg sc) in
+  (mkbview (ci_method ci) (md_out (ci_md ci)) (backend_reads (sc_mode sc) (fwd_s2c (ci_msgs ci))),
+   mkcview (ev_hdr evs) (ev_msgs evs) (sc_trl sc) (fst st) (snd st)).
 
 Definition code_not_found : N := 5.
 Definition code_internal : N := 13.
+Definition code_unavailable : N := 14.
+
+(* a target nobody can be reached at: its backend is down, or it is a grpcs:// target behind a
+   listener without TLS -- newConnection uses TLS only when the LISTENER has a tls.Config
+   (grpc_handler.go: target.URL.Scheme == "grpcs" && p.tlscfg != nil), otherwise it dials
+   in the clear, and a TLS backend does not answer that *)
+Definition s_grpcs : str := bs "grpcs://".
+Definition plaintext_to_tls (tls_listener : bool) (u : url) : bool := has_prefix u s_grpcs && negb tls_listener.
+Definition unreachable (tls_listener : bool) (down : list url) (u : url) : bool :=
+  mem u down || plaintext_to_tls tls_listener u.
 Definition err_view (c : N) (m : string) : cview := mkcview [] [] [] c (bs m).
 
 (* Stream interceptor + director + handler: who is contacted with what, what the caller gets *)
@@ -217,6 +259,19 @@ Definition call_outcome (t : table) (noglob : bool) (ci : callin) : option (list
   | None => (None, err_view code_internal "internal error")
   | Some None => (None, err_view code_not_found "no route found")
   | Some (Some ts) => let (b, c) := relay ci in (Some (ts, b), c)
+  end.
+
+(* who a routed call reaches and with which status, [k] being the picker's choice: a target
+   that cannot be reached makes the call fail with Unavailable *)
+Definition call_result (tls_listener : bool) (down : list url) (t : table) (noglob : bool) (ci : callin) (k : nat)
+  : option url * N :=
+  match call_outcome t noglob ci with
+  | (Some (ts, _), c) =>
+      match nth_error ts k with
+      | Some u => if unreachable tls_listener down u then (None, code_unavailable) else (Some u, cv_code c)
+      | None => (None, code_unavailable)
+      end
+  | (None, c) => (None, cv_code c)
   end.
 
 (* ---- message size limits ----
@@ -314,6 +369,23 @@ Fixpoint grun (s : pstate) (u : url) (ths : list gpc) (sched : list nat) : pstat
   | [] => (s, ths)
   | i :: r => let (s1, ths1) := gstep_at s u ths i in grun s1 u ths1 r
   end.
+(* the same with callers for different targets, and cleanup ticks, table changes and
+   connection shutdowns happening in between *)
+Inductive mact := MThread (i : nat) | MTick | MSetTable (urls : list url) | MShutdown (u : url).
+Definition mstep_at (s : pstate) (ths : list (url * gpc)) (i : nat) : pstate * list (url * gpc) :=
+  match nth_error ths i with
+  | None => (s, ths)
+  | Some (u, p) => let (s1, p1) := gstep s u p in (s1, firstn i ths ++ (u, p1) :: skipn (S i) ths)
+  end.
+Definition mstep (st : list url * pstate * list (url * gpc)) (a : mact) : list url * pstate * list (url * gpc) :=
+  let '(urls, s, ths) := st in
+  match a with
+  | MThread i => let (s1, ths1) := mstep_at s ths i in (urls, s1, ths1)
+  | MTick => (urls, p_tick urls s, ths)
+  | MSetTable t => (t, s, ths)
+  | MShutdown u => (urls, p_shutdown s u, ths)
+  end.
+Definition mrun (st : list url * pstate * list (url * gpc)) (sched : list mact) := fold_left mstep sched st.
 Definition g_done (p : gpc) : bool := match p with GDone _ => true | _ => false end.
 
 (* a connection nobody can reach any more: dialled, live, not in the pool *)
